@@ -239,7 +239,7 @@ func (r *Runner) setVar(name string, vr expand.Variable) {
 	}
 }
 
-func (r *Runner) setVarWithIndex(prev expand.Variable, name string, index syntax.ArithmExpr, vr expand.Variable) {
+func (r *Runner) setVarWithIndex(prev expand.Variable, name string, index syntax.ArithmExpr, vr expand.Variable, appendElem bool) {
 	if vr.Kind == expand.String && index == nil {
 		// When assigning a string to an array, fall back to the
 		// zero value for the index.
@@ -286,6 +286,9 @@ func (r *Runner) setVarWithIndex(prev expand.Variable, name string, index syntax
 		if prev.Map == nil {
 			prev.Map = make(map[string]string)
 		}
+		if appendElem {
+			valStr = prev.Map[k] + valStr
+		}
 		prev.Map[k] = valStr
 		prev.Set = true
 		r.setVar(name, prev)
@@ -298,6 +301,16 @@ func (r *Runner) setVarWithIndex(prev expand.Variable, name string, index syntax
 			r.errf("%s: bad array subscript\n", name)
 			r.exit.code = 1
 			return
+		}
+	}
+	if appendElem {
+		// a[k]+=val appends to the existing element, if any.
+		if indexes == nil {
+			if k < len(list) {
+				valStr = list[k] + valStr
+			}
+		} else if pos, ok := slices.BinarySearch(indexes, k); ok {
+			valStr = list[pos] + valStr
 		}
 	}
 	list, indexes = internal.SetIndexedElem(list, indexes, k, valStr)
@@ -402,6 +415,10 @@ func (r *Runner) assignVal(name string, prev expand.Variable, as *syntax.Assign,
 	prev.Set = true
 	if as.Value != nil {
 		s := r.literal(as.Value)
+		if as.Append && as.Index != nil {
+			// a[i]+=s: setVarWithIndex appends s to the element.
+			return name, expand.Variable{Set: true, Kind: expand.String, Str: s}
+		}
 		if !as.Append {
 			prev.Kind = expand.String
 			if valType == "-n" {
